@@ -1080,11 +1080,16 @@ def plan(ctx, tier, rng, extra_search=False):
     return out
 
 
+PARALLEL_RUNS = 3     # harness processes at a time (each data set is one process fed one batch)
+
+
 def evaluate(ctx, exe, mexe, needs, datasets, tier, rng, stats, samples):
     n = 0
+    jobs = []
+    # 1. every input is fixed first, in order, from the one random stream (so neither the inputs nor the evaluation
+    #    count depend on scheduling)
     for ds, variant in datasets:
         params = default_params(rng, ds, variant)
-        probe_adapters(ctx, exe, ds, stats)
         cases = []
         # id sequences of this data set: the flavours rotate over the data sets of a run (two per full data set, one per
         # reduced one in the quick tier), so that every flavour is run at least once per run whatever the seed
@@ -1096,7 +1101,15 @@ def evaluate(ctx, exe, mexe, needs, datasets, tier, rng, stats, samples):
         stats["_fl"] += nfl
         for m in METHODS:
             cases += cases_for(m, needs.get(m, ""), ds, params, tier, rng, reduced=bool(variant.get("reduced")), seqs=seqs)
-        results = run_cases(ctx, exe, ds, cases)
+        jobs.append((ds, params, seqs, cases))
+    # 2. the harness runs: independent processes, a few at a time
+    for ds, params, seqs, cases in jobs:
+        probe_adapters(ctx, exe, ds, stats)
+    from concurrent.futures import ThreadPoolExecutor
+    with ThreadPoolExecutor(max_workers=PARALLEL_RUNS) as pool:
+        all_results = list(pool.map(lambda job: run_cases(ctx, exe, job[0], job[3]), jobs))
+    # 3. judged in order
+    for (ds, params, seqs, cases), results in zip(jobs, all_results):
         if any(r["kind"] == "NOTBUILT" for r in results):      # fallback build without the raw eigen family
             keep = [i for i, r in enumerate(results) if not (r["kind"] == "NOTBUILT" and cases[i]["fam"] in ("E", "X", "O", "P"))]
             cases, results = [cases[i] for i in keep], [results[i] for i in keep]
